@@ -188,6 +188,11 @@ def build(ctx, tier="quick", constraints=True, set_null=True, normalize_names=Fa
                 # in a UNIQUE list there is no ordering: a column may be called asc / desc
                 s.e[x0].append((lm.custom("ordword", ["desc", "asc", "Desc", "ASC", "DESC", "Asc"], "PLAIN"), Tag(kind, False, role_prefix + "1"), x))
             if k == 2:
+                if kind in ("decl:PK", "decl:CPK") and not normalize_names:
+                    # a sort direction after the first key column: not a column of the key
+                    direction = lm.custom("ASC|DESC", ["DESC", "ASC", "desc", "asc", "Desc", "Asc"], "WORD")
+                    xd = s.edge(x, direction, Tag(kind, False, "dir1"))
+                    s.eps(xd, x)
                 x = s.edge(x, P[","], Tag(kind, False))
                 x = s.edge(x, NM["b"], Tag(kind, False, role_prefix + "2"))
             return s.edge(x, P[")"], Tag(kind, False))
